@@ -205,6 +205,9 @@ func writeReplay(P *Program, repo, propID string, o *Obl, r *FuncResult, path st
 		}
 		os.WriteFile(path, []byte(sb.String()), 0o644)
 	}()
+	if os.Getenv("GVC_SURVEY") != "" {
+		return false
+	}
 	if r == nil || r.gen == nil {
 		return false
 	}
